@@ -320,6 +320,8 @@ fn gen_c12(tier: &str, rng: &mut Rng, emit: &mut dyn FnMut(Op)) {
         b"--- a\r\n+++ b\r\n$NetBSD: patch-aa,v 1.2 $\r\n@@\r\n-x\r\n+y\r\n".to_vec(),
         b"$NetBSD: x $\n--- caf\xe9.c\n+++ caf\xe9.c\n+\xff\xfe\n".to_vec(),
         b"line one\nlast line without newline".to_vec(),
+        // '$NetBSD' after other '$' signs / doubled '$' / restarts of a near miss: still a marker line
+        b"+.if ${FOO} > 5.4 # $NetBSD$\nkeep\n$$NetBSD: Makefile,v 1.2 $$\nkeep2\n$Net$NetBSD\n$NetBS$NetBSD x\n".to_vec(),
     ];
     let names: [&[u8]; 8] = [b"c.tgz", b"b/c.tgz", b"a/b/c.tgz", b"patch-aa", b"sub/patch-ab", b"emul-linux-patch-a", b"d.tgz", b"patch-2.0.tar.gz"];
     for _ in 0..(if thorough { 4000 } else { 350 }) {
